@@ -40,6 +40,19 @@ pub fn string_n(len: u8) -> String {
     s
 }
 
+/// `len` fixed characters: in the wire harnesses key *contents* are concrete (decoding a String
+/// validates UTF-8 byte by byte, which on symbolic bytes dominates symbolic execution: 635 s of symex
+/// for a one-character key) while value bytes and the cursor stay symbolic
+pub fn fixed_string_n(len: u8) -> String {
+    let mut s = String::new();
+    let mut i = 0;
+    while i < len {
+        s.push('k');
+        i += 1;
+    }
+    s
+}
+
 /// V: 0 = absent, 1 + n = n bytes
 pub fn value_of(v: u8) -> Value {
     if v == 0 {
@@ -215,48 +228,80 @@ fn options() -> impl bincode::Options + Copy {
     bincode::DefaultOptions::new().with_fixint_encoding().allow_trailing_bytes()
 }
 
-fn op_eq(a: &KeyValueOperation, b: &KeyValueOperation) -> bool {
-    use KeyValueOperation::*;
-    match (a, b) {
-        (Get { key: x }, Get { key: y }) | (Delete { key: x }, Delete { key: y }) | (Exists { key: x }, Exists { key: y }) => {
-            bytes_eq(x.as_bytes(), y.as_bytes())
+/// Independent description of the wire format (what a schema-driven shell decoder expects): bincode
+/// with fixed-width little-endian integers — enum variant index u32, String / byte buffer = u64
+/// length + bytes, u64 as 8 bytes.
+pub struct Wire {
+    pub buf: [u8; 48],
+    pub len: usize,
+}
+
+impl Wire {
+    pub fn new() -> Wire {
+        Wire { buf: [0; 48], len: 0 }
+    }
+    pub fn u8(&mut self, b: u8) {
+        self.buf[self.len] = b;
+        self.len += 1;
+    }
+    pub fn u32(&mut self, v: u32) {
+        let mut i = 0;
+        while i < 4 {
+            self.u8((v >> (8 * i)) as u8);
+            i += 1;
         }
-        (Set { key: x, value: v }, Set { key: y, value: w }) => bytes_eq(x.as_bytes(), y.as_bytes()) && bytes_eq(v, w),
-        (ListKeys { prefix: x, cursor: c }, ListKeys { prefix: y, cursor: d }) => bytes_eq(x.as_bytes(), y.as_bytes()) && c == d,
-        _ => false,
+    }
+    pub fn u64(&mut self, v: u64) {
+        let mut i = 0;
+        while i < 8 {
+            self.u8((v >> (8 * i)) as u8);
+            i += 1;
+        }
+    }
+    pub fn bytes(&mut self, b: &[u8]) {
+        self.u64(b.len() as u64);
+        let mut i = 0;
+        while i < b.len() {
+            self.u8(b[i]);
+            i += 1;
+        }
     }
 }
 
-/// the operation crosses the serialized bridge unchanged: encode with the bridge's options, decode
-/// what the shell would see, compare; the encoding has the positional layout a schema-driven shell
-/// decoder expects (variant index u32, key length u64, key bytes, ...).
+/// core -> shell: the operation the shell sees is exactly the positional encoding of what the app
+/// asked for, every field present even when empty.
 /// SHAPE = which + 3*kl + 6*vl  (key length kl <= 1, value length vl <= 2)
 fn op_wire_case<const SHAPE: u8>() {
     let (which, kl, vl) = (SHAPE % 3, (SHAPE / 3) % 2, SHAPE / 6);
+    let key = fixed_string_n(kl);
+    let mut want = Wire::new();
     let op = match which {
-        0 => KeyValueOperation::Set { key: string_n(kl), value: bytes_n(vl) },
-        1 => KeyValueOperation::Get { key: string_n(kl) },
-        _ => KeyValueOperation::ListKeys { prefix: string_n(kl), cursor: nd::any_u64() },
+        0 => {
+            let value = bytes_n(vl);
+            want.u32(1);
+            want.bytes(key.as_bytes());
+            want.bytes(&value);
+            KeyValueOperation::Set { key, value }
+        }
+        1 => {
+            want.u32(0);
+            want.bytes(key.as_bytes());
+            KeyValueOperation::Get { key }
+        }
+        _ => {
+            let cursor = nd::any_u64();
+            want.u32(4);
+            want.bytes(key.as_bytes());
+            want.u64(cursor);
+            KeyValueOperation::ListKeys { prefix: key, cursor }
+        }
     };
     let bytes = match options().serialize(&op) {
         Ok(b) => b,
         Err(_) => panic!("operation does not serialize"),
     };
-    // positional layout: 4-byte variant index first
-    let idx = match which {
-        0 => 1u8,
-        1 => 0u8,
-        _ => 4u8,
-    };
-    assert!(bytes.len() >= 4 && bytes[0] == idx && bytes[1] == 0 && bytes[2] == 0 && bytes[3] == 0, "variant index on the wire");
-    if which == 0 {
-        // u32 index + u64 key len + key + u64 value len + value: nothing skipped, even when empty
-        assert!(bytes.len() == 4 + 8 + usize::from(kl) + 8 + usize::from(vl), "every field of Set is on the wire");
-    }
-    match options().deserialize::<KeyValueOperation>(&bytes) {
-        Ok(back) => assert!(op_eq(&op, &back), "operation decodes to itself"),
-        Err(_) => panic!("operation does not decode"),
-    }
+    assert!(bytes.len() == want.len, "every field of the operation is on the wire, nothing else");
+    assert!(bytes_eq(&bytes, &want.buf[..want.len]), "operation bytes are the positional encoding of the arguments");
     nd_cover!(which == 0 && vl == 0, "set with an empty value");
     nd_cover!(which == 0 && vl == 2, "set with two bytes");
     nd_cover!(which == 2, "list keys");
@@ -264,7 +309,7 @@ fn op_wire_case<const SHAPE: u8>() {
 
 macro_rules! op_wire_harness {
     ($name:ident, $($n:literal)*) => {
-        #[cfg_attr(kani, kani::proof, kani::unwind(12))]
+        #[cfg_attr(kani, kani::proof, kani::unwind(32))]
         #[cfg_attr(kani, kani::stub(core::fmt::write, crate::common::fmt_write_nop))]
         pub fn $name() {
             let s = nd::any_u8();
@@ -272,18 +317,26 @@ macro_rules! op_wire_harness {
         }
     };
 }
-op_wire_harness!(c17_operation_wire_a, 0 3 6 9 12 15);
-op_wire_harness!(c17_operation_wire_b, 1 4 2 5);
+op_wire_harness!(c17_wire_ops_set_empty, 3 0);
+op_wire_harness!(c17_wire_ops_set_bytes, 12 9);
+op_wire_harness!(c17_wire_ops_set_more, 6 15);
+op_wire_harness!(c17_wire_ops_get_list, 1 4 2 5);
 
-/// a result sent by the shell decodes to itself and reaches the app unchanged through unwrap_get
+/// shell -> core: a result encoded by the shell (independent encoder above) decodes and reaches the
+/// app unchanged through unwrap_get
 fn result_wire_case<const K: u8>() {
     let v = value_of(K);
-    let res = KeyValueResult::Ok { response: KeyValueResponse::Get { value: v.clone() } };
-    let bytes = match options().serialize(&res) {
-        Ok(b) => b,
-        Err(_) => panic!("result does not serialize"),
-    };
-    match options().deserialize::<KeyValueResult>(&bytes) {
+    let mut w = Wire::new();
+    w.u32(0); // KeyValueResult::Ok
+    w.u32(0); // KeyValueResponse::Get
+    match &v {
+        Value::None => w.u32(0),
+        Value::Bytes(b) => {
+            w.u32(1);
+            w.bytes(b);
+        }
+    }
+    match options().deserialize::<KeyValueResult>(&w.buf[..w.len]) {
         Ok(back) => match kv::unwrap_get(back) {
             Ok(o) => assert!(value_matches(&v, &o), "value crosses the wire and the API unchanged"),
             Err(_) => panic!("a success result became an error"),
@@ -295,9 +348,9 @@ fn result_wire_case<const K: u8>() {
     nd_cover!(K == 3, "two bytes");
 }
 
-#[cfg_attr(kani, kani::proof, kani::unwind(12))]
+#[cfg_attr(kani, kani::proof, kani::unwind(32))]
 #[cfg_attr(kani, kani::stub(core::fmt::write, crate::common::fmt_write_nop))]
-pub fn c17_result_wire_roundtrip() {
+pub fn c17_wire_results() {
     let k = nd::any_u8();
     dispatch!(k, result_wire_case, 0 1 2 3);
 }
